@@ -420,7 +420,7 @@ fn pid_core_body(_lookups: usize, _named_conflict: bool) -> vsched::Body {
 }
 
 #[cfg(not(feature = "alt"))]
-fn remote_namesake_body(_kill: bool) -> vsched::Body {
+fn remote_namesake_body(_kill: bool, _same_pid: bool) -> vsched::Body {
     wrong_build()
 }
 
@@ -428,14 +428,15 @@ fn remote_namesake_body(_kill: bool) -> vsched::Body {
 /// `spawn_linked_remote`) carries the peer actor's name, which may well be the name of a local actor too
 /// (names are per node). Stand-ins are not entered in the name table, so their coming and going must leave the
 /// local holder of that name alone: where_is keeps returning it, a same-name spawn keeps failing.
+/// `same_pid`: the stand-in also has the local holder's process number (pids count from 0 on every node)
 #[cfg(feature = "alt")]
-fn remote_namesake_body(kill: bool) -> vsched::Body {
+fn remote_namesake_body(kill: bool, same_pid: bool) -> vsched::Body {
     Arc::new(move || {
         Box::pin(async move {
             let mut bad = Vec::new();
             let (sup, suph) = Actor::spawn(None, Dummy, ()).await.expect("supervisor");
             let (l, lh) = Actor::spawn(Some("N".into()), Dummy, ()).await.expect("local holder of the name");
-            let shim = ractor::ActorRuntime::<Dummy>::spawn_linked_remote(Some("N".into()), Dummy, ractor::ActorId::Remote { node_id: 5, pid: 9 }, (), sup.get_cell()).await;
+            let shim = ractor::ActorRuntime::<Dummy>::spawn_linked_remote(Some("N".into()), Dummy, ractor::ActorId::Remote { node_id: 5, pid: if same_pid { l.get_id().pid() } else { 9 } }, (), sup.get_cell()).await;
             let Ok((shim, shimh)) = shim else {
                 bad.push("the stand-in with a remote id could not be created next to a local actor of the same name".to_string());
                 l.stop(None);
@@ -477,7 +478,7 @@ fn remote_namesake_body(kill: bool) -> vsched::Body {
             }
             sup.stop(None);
             let _ = suph.await;
-            Outcome { key: format!("kill={kill}"), violations: bad }
+            Outcome { key: format!("kill={kill} same_pid={same_pid}"), violations: bad }
         })
     })
 }
@@ -750,8 +751,10 @@ pub fn plan(tier: &str) -> Plan {
         ("alt/live/Kill".into(), live_cfg.clone(), Some(lb), live_body(Exit::Kill), 8),
         ("alt/live/FailedStart".into(), live_cfg.clone(), Some(lb), live_body(Exit::FailedStart), 8),
         ("alt/live/instant-failed-start/err/send".into(), live_cfg.clone(), Some(lb), failed_instant_body(false, false), 4),
-        ("alt/remote-namesake/stop".into(), ExecCfg::default(), Some(1), remote_namesake_body(false), 1),
-        ("alt/remote-namesake/kill".into(), ExecCfg::default(), Some(1), remote_namesake_body(true), 1),
+        ("alt/remote-namesake/stop".into(), ExecCfg::default(), Some(1), remote_namesake_body(false, false), 1),
+        ("alt/remote-namesake/kill".into(), ExecCfg::default(), Some(1), remote_namesake_body(true, false), 1),
+        ("alt/remote-namesake/stop-same-pid".into(), ExecCfg::default(), Some(1), remote_namesake_body(false, true), 1),
+        ("alt/remote-namesake/kill-same-pid".into(), ExecCfg::default(), Some(1), remote_namesake_body(true, true), 1),
     ];
     for (name, cfg, bound, b, split) in alt_units {
         units.push(alt_unit(name, cfg, bound, b, split));
